@@ -387,3 +387,45 @@ func (p *Program) privateCallees(fi *FuncInfo) []*FuncInfo {
 	}
 	return out
 }
+
+type argSite struct {
+	Fn   *FuncInfo
+	Call *ast.CallExpr
+	Expr ast.Expr
+}
+
+// effectiveArgs returns the expressions that actually reach argument idx of call c (in fi): the argument itself,
+// or — when it is a parameter of fi and fi is only a wrapper — the corresponding arguments at every call site of
+// fi (two levels).
+func (p *Program) effectiveArgs(fi *FuncInfo, c *ast.CallExpr, idx int, depth int) []argSite {
+	if idx >= len(c.Args) {
+		return nil
+	}
+	arg := ast.Unparen(c.Args[idx])
+	info := fi.Pkg.TypesInfo
+	if id, ok := arg.(*ast.Ident); ok && depth < 2 && fi.Obj != nil {
+		if v, isVar := info.Uses[id].(*types.Var); isVar {
+			sig := fi.Obj.Type().(*types.Signature)
+			for i := 0; i < sig.Params().Len(); i++ {
+				if sig.Params().At(i) != v || !neverAssigned(info, fi.Decl.Body, v) {
+					continue
+				}
+				var out []argSite
+				for _, caller := range p.SortedFuncs() {
+					if caller.Decl.Body == nil || caller.Pkg != fi.Pkg {
+						continue
+					}
+					for _, cc := range callsIn(caller.Decl.Body) {
+						if fn := calleeOf(caller.Pkg.TypesInfo, cc); fn != nil && p.FuncOf(fn) == fi {
+							out = append(out, p.effectiveArgs(caller, cc, i, depth+1)...)
+						}
+					}
+				}
+				if len(out) > 0 {
+					return out
+				}
+			}
+		}
+	}
+	return []argSite{{fi, c, arg}}
+}
